@@ -485,10 +485,62 @@ func c09History(c *ctx) error {
 			c.w.Count("delete-crash-rerun")
 		}
 	}
+	// rename while ONE store call fails transiently (a read of a descriptor or a file list, a write of
+	// a copy): RenameRepo reports an error, or the result is exactly that of the fault-free rename
+	for _, n := range names {
+		if c.rng.Intn(2) == 0 {
+			continue
+		}
+		const to = "zz-renamed"
+		ref := w.clone()
+		if corekit.Recover(func() error { return core.RenameRepo(n, to, ref.env.Stores) }) != nil {
+			continue
+		}
+		refSnap := ref.snapshot()
+		for q := 0; q < 4; q++ {
+			y := w.clone()
+			g := &crashstore.Group{}
+			kind := "write"
+			if q%2 == 0 {
+				kind = "read"
+				g.FailReadOp, g.FailReadKey, g.FailReadAt = "get", "bundles/", 1+c.rng.Intn(12)
+			} else {
+				// (a failed DELETE of the source's file lists is ignored by design — WithDeleteIgnoreBundleError —
+				// so only the writes of the copies are failed here)
+				g.FailOnceOp, g.FailOnceAt = "put", 1+c.rng.Intn(10)
+			}
+			yst := corekit.WithStores(y.env.Wal, y.env.ReadLog, crashstore.Wrap(g, "blob", y.env.Blob), crashstore.Wrap(g, "meta", y.env.Meta), crashstore.Wrap(g, "vmeta", y.env.VMeta))
+			err := corekit.Recover(func() error { return core.RenameRepo(n, to, yst) })
+			fired := g.FailReadAt != 0 && g.Reads() >= g.FailReadAt
+			for _, wr := range g.Snapshot() {
+				if wr.Err && !wr.Landed && g.FailOnceAt != 0 {
+					fired = true
+				}
+			}
+			if !fired {
+				continue
+			}
+			got := "err"
+			if err == nil {
+				got = "same"
+				ys := y.snapshot()
+				if len(ys) != len(refSnap) {
+					got = fmt.Sprintf("differ:%d-keys-instead-of-%d", len(ys), len(refSnap))
+				}
+				for kk, v := range refSnap {
+					if ys[kk] != v {
+						got = "differ:" + tr.Esc(kk)
+					}
+				}
+			}
+			c.w.Op(fmt.Sprintf("renamef repo=%s fault=%s at=%d got=%s", tr.Esc(n), kind, g.FailReadAt+g.FailOnceAt, got), "sound")
+			c.w.Count("rename-with-fault=" + kind)
+		}
+	}
 	nScen := 3 + c.rng.Intn(3)
 	for sIdx := 0; sIdx < nScen; sIdx++ {
 		x := w.clone()
-		if c.rng.Intn(25) == 0 {
+		if c.rng.Intn(8) == 0 {
 			// inconsistent metadata: a file list of a committed bundle is missing
 			var cands []string
 			for _, k := range x.env.Meta.SortedKeys() {
